@@ -217,6 +217,20 @@ class C18(Prop):
             ("timeout-nodoc", timeout(1)(nodoc_async), nodoc_async), ("asynchronous-nodoc", asynchronous(nodoc_sync), nodoc_sync),
             ("wrap_async-nodoc", wrap_async(nodoc_sync), nodoc_sync), ("traced-nodoc", traced(nodoc_sync), nodoc_sync),
         ]
+        class MetaHost:
+            @asynchronous
+            def am(self, x):
+                """am doc"""
+                return x
+
+            @cache
+            def cm(self, x):
+                """cm doc"""
+                return x
+
+        host_obj = MetaHost()
+        metas += [("asynchronous-bound-method", host_obj.am, MetaHost.__dict__["am"].__wrapped__),
+                  ("cache-bound-method", host_obj.cm, MetaHost.__dict__["cm"].__wrapped__)]
         if not is_method:
             metas.append((kind, wrapped, original))
         for label, prod, orig in metas:
